@@ -195,7 +195,7 @@ func init() {
 				// only acceptable if no name was looked up (empty list)
 				continue
 			}
-			o.Check(strings.HasPrefix(strings.Join(vs, "|"), "fmt.Errorf("), "undefined-error", "an undefined interval name must be an error", ret)
+			o.Check(isErrCtor(strings.Join(vs, "|")), "undefined-error", "an undefined interval name must be an error", ret)
 		}
 		o.MinSites(1)
 	})
